@@ -48,7 +48,9 @@ def main():
         e = dict(env, CARGO_TARGET_DIR=os.path.join(mut, ".t-target"))
         rc, o = sh(["cargo", "test", "--offline", "--lib"], mut, e)
         m = re.search(r"test result: (\w+)\. (\d+) passed; (\d+) failed", o)
-        out["suite_passes_with_patch"] = bool(rc == 0 and m and m.group(1) == "ok" and int(m.group(2)) == 32)
+        # the 32 existing tests must pass; a change may bring tests of its own
+        out["suite_passes_with_patch"] = bool(rc == 0 and m and m.group(1) == "ok" and int(m.group(2)) >= 32 and int(m.group(3)) == 0)
+        out["lib_tests_run_with_patch"] = int(m.group(2)) if m else None
         rc, o = sh(["cargo", "build", "--offline", "--features", "verif-hooks"], mut, e)
         out["builds_with_hooks"] = rc == 0
         # 1 + 3. the demonstration
